@@ -260,7 +260,7 @@ Qed.
 (* every component of the fragment owns at least one transition, place and API record *)
 Lemma frag_sizes : forall s, frag s = true -> 1 <= ntrans s /\ 1 <= nplaces s /\ 1 <= napis s.
 Proof.
-  induction s as [n a i|t a i body IH|bs IH| | | | ] using xstmt_ind'; intro H; try discriminate H.
+  induction s as [n a i|t a i body IH|bs IH|e p f IHp IHf|e b IH|v l b IH|v l c IH] using xstmt_ind'; intro H; try discriminate H.
   - cbn. lia.
   - apply frag_call in H. destruct H as [_ H]. rewrite ntrans_call, nplaces_call, napis_call.
     destruct body as [|s r]; [discriminate|]. apply frag_block_cons in H. destruct H as [Hs _].
@@ -269,4 +269,195 @@ Proof.
   - apply frag_par in H. destruct H as [Hne H]. rewrite ntrans_par, nplaces_par, napis_par.
     destruct bs as [|b r]; [congruence|]. apply frag_brs_cons in H. destruct H as (_ & Hb & _).
     inversion IH as [|? ? IHb _]; subst. specialize (IHb Hb). rewrite napis_l_cons. lia.
+Qed.
+
+(* ---- exit transition and exit place lie inside the component ---- *)
+Lemma exit_range_block : forall l,
+    Forall (fun s => frag s = true -> forall p, pt p <= exit_t s p < pt p + ntrans s) l ->
+    frag_block l = true -> forall p, pt p <= exit_b l p < pt p + ntrans_b l.
+Proof.
+  induction l as [|s r IH]; intros HF Hf p; [discriminate|].
+  inversion HF as [|? ? Hs Hr]; subst. apply frag_block_cons in Hf. destruct Hf as [Hfs Hfr].
+  destruct r as [|s' r].
+  - unfold exit_b. rewrite last_of_one, ntrans_b_one. apply Hs. exact Hfs.
+  - destruct Hfr as [Hfr|Hfr]; [discriminate|]. unfold exit_b. rewrite last_of_cons, ntrans_b_cons.
+    specialize (IH Hr Hfr (adv s (conn_skip p))). unfold exit_b in IH. cbn [adv conn_skip pt] in IH. lia.
+Qed.
+
+Lemma exit_range : forall s, frag s = true -> forall p, pt p <= exit_t s p < pt p + ntrans s.
+Proof.
+  induction s as [n a i|t a i body IH|bs IH|e p f IHp IHf|e b IH|v l b IH|v l c IH] using xstmt_ind';
+    intros H p0; try discriminate H.
+  - cbn. lia.
+  - apply frag_call in H. destruct H as [_ H]. rewrite ntrans_call. cbn [exit_t].
+    apply (exit_range_block body IH H (body_pos p0)).
+  - rewrite ntrans_par. cbn [exit_t]. lia.
+Qed.
+
+Lemma xplace_range_block : forall l,
+    Forall (fun s => frag s = true -> forall p, pp p <= xplace s p < pp p + nplaces s) l ->
+    frag_block l = true -> forall p, pp p <= xplace_b l p < pp p + nplaces_l l.
+Proof.
+  induction l as [|s r IH]; intros HF Hf p; [discriminate|].
+  inversion HF as [|? ? Hs Hr]; subst. apply frag_block_cons in Hf. destruct Hf as [Hfs Hfr].
+  rewrite nplaces_l_cons. destruct r as [|s' r].
+  - unfold xplace_b. rewrite last_of_one. specialize (Hs Hfs p). cbn. lia.
+  - destruct Hfr as [Hfr|Hfr]; [discriminate|]. unfold xplace_b. rewrite last_of_cons.
+    specialize (IH Hr Hfr (adv s (conn_skip p))). unfold xplace_b in IH. cbn [adv conn_skip pp] in IH. lia.
+Qed.
+
+Lemma xplace_range : forall s, frag s = true -> forall p, pp p <= xplace s p < pp p + nplaces s.
+Proof.
+  induction s as [n a i|t a i body IH|bs IH|e p f IHp IHf|e b IH|v l b IH|v l c IH] using xstmt_ind';
+    intros H p0; try discriminate H.
+  - cbn. lia.
+  - apply frag_call in H. destruct H as [_ H]. rewrite nplaces_call. cbn [xplace].
+    apply (xplace_range_block body IH H (body_pos p0)).
+  - rewrite nplaces_par. cbn [xplace]. lia.
+Qed.
+
+Lemma napis_l_one : forall s, napis_l [s] = napis s.
+Proof. intro s. unfold napis_l. cbn [map list_sum fold_right]. lia. Qed.
+Lemma nplaces_l_one : forall s, nplaces_l [s] = nplaces s.
+Proof. intro s. unfold nplaces_l. cbn [map list_sum fold_right]. lia. Qed.
+
+Lemma exit_range_b : forall l, frag_block l = true -> forall p, pt p <= exit_b l p < pt p + ntrans_b l.
+Proof.
+  intros l H. apply exit_range_block; [|exact H]. apply Forall_forall. intros s _ Hs. apply exit_range. exact Hs.
+Qed.
+Lemma xplace_range_b : forall l, frag_block l = true -> forall p, pp p <= xplace_b l p < pp p + nplaces_l l.
+Proof.
+  intros l H. apply xplace_range_block; [|exact H]. apply Forall_forall. intros s _ Hs. apply xplace_range. exact Hs.
+Qed.
+
+(* ---- [wired] depends only on the component's own transitions, API records and place_dict
+        entries; callbacks appended to its exit transition extend [xcbs] ---- *)
+Definition agree (N N' : NS) (p : pos) (dt da : nat) (e : nat) (extra : list cb) : Prop :=
+  (forall j, pt p <= j < pt p + dt ->
+             preN N' j = preN N j /\ postN N' j = postN N j /\
+             cbsN N' j = cbsN N j ++ (if Nat.eqb e j then extra else [])) /\
+  (forall j, pa p <= j < pa p + da -> nth_error (ns_apis N') j = nth_error (ns_apis N) j) /\
+  (exists d, ns_place_dict N' = d ++ ns_place_dict N /\
+             Forall (fun kv => exists k, fst kv = IUuid k /\ pa p + da <= k) d).
+
+Lemma agree_sub : forall N N' p dt da e x q dt' da',
+    agree N N' p dt da e x ->
+    pt p <= pt q -> pt q + dt' <= pt p + dt -> pa p <= pa q -> pa q + da' <= pa p + da ->
+    agree N N' q dt' da' e x.
+Proof.
+  intros N N' p dt da e x q dt' da' (Ht & Ha & d & Hd & Hk) H1 H2 H3 H4. split; [|split].
+  - intros j Hj. apply Ht. lia.
+  - intros j Hj. apply Ha. lia.
+  - exists d. split; [exact Hd|]. eapply Forall_impl; [|exact Hk].
+    intros kv (k & E & Hle). exists k. split; [exact E|lia].
+Qed.
+
+Lemma dict_get_skip : forall (d r : list (ident * nat)) n,
+    Forall (fun kv => exists k, fst kv = IUuid k /\ n < k) d ->
+    dict_get ident_eqb (IUuid n) (d ++ r) = dict_get ident_eqb (IUuid n) r.
+Proof.
+  induction d as [|[u q] d IH]; intros r n H; [reflexivity|].
+  inversion H as [|? ? (k & E & Hk) Hr]; subst. cbn [app dict_get]. cbn [fst] in E. subst u.
+  cbn [ident_eqb]. destruct (Nat.eqb_spec n k); [lia|]. apply IH. exact Hr.
+Qed.
+
+Lemma wired_agree_block : forall N N' e extra l,
+    Forall (fun s => frag s = true -> forall p ctx xcbs,
+                agree N N' p (ntrans s) (napis s) e extra ->
+                ((e < pt p \/ pt p + ntrans s <= e) \/ e = exit_t s p) ->
+                wired N s p ctx xcbs ->
+                wired N' s p ctx (xcbs ++ if Nat.eqb e (exit_t s p) then extra else [])) l ->
+    frag_block l = true -> forall p ctx xcbs,
+      agree N N' p (ntrans_b l) (napis_l l) e extra ->
+      ((e < pt p \/ pt p + ntrans_b l <= e) \/ e = exit_b l p) ->
+      wired_block (wired N) N ctx xcbs l p ->
+      wired_block (wired N') N' ctx (xcbs ++ if Nat.eqb e (exit_b l p) then extra else []) l p.
+Proof.
+  intros N N' e extra. induction l as [|s r IH]; intros HF Hf p ctx xcbs Hag He Hw; [discriminate|].
+  inversion HF as [|? ? Hs Hr]; subst. apply frag_block_cons in Hf. destruct Hf as [Hfs Hfr].
+  destruct r as [|s' r].
+  - cbn [wired_block] in *. unfold exit_b in *. rewrite last_of_one in *. rewrite ntrans_b_one in *.
+    apply Hs; try assumption. rewrite napis_l_one in Hag. exact Hag.
+  - destruct Hfr as [Hfr|Hfr]; [discriminate|].
+    cbn [wired_block] in Hw. cbv zeta in Hw. destruct Hw as (Hpre & Hpost & Hcb & Hws & Hwr).
+    cbn [wired_block]. cbv zeta.
+    rewrite ntrans_b_cons, napis_l_cons in Hag. rewrite ntrans_b_cons in He.
+    unfold exit_b in *. rewrite last_of_cons in *.
+    pose proof (exit_range_b (s' :: r) Hfr (adv s (conn_skip p))) as Hex.
+    unfold exit_b in Hex. cbn [adv conn_skip pt] in Hex.
+    destruct Hag as (Ht & Ha & Hd).
+    destruct (Ht (pt p) ltac:(lia)) as (E1 & E2 & E3).
+    assert (Hne : Nat.eqb e (pt p) = false).
+    { apply Nat.eqb_neq. destruct He as [[He|He]|He]; lia. }
+    rewrite Hne, app_nil_r in E3.
+    split; [congruence|]. split; [congruence|]. split; [congruence|]. split.
+    + assert (Hx := Hs Hfs (conn_skip p) ctx [] ).
+      pose proof (exit_range s Hfs (conn_skip p)) as Hes. cbn [conn_skip pt] in Hes.
+      assert (Hne2 : Nat.eqb e (exit_t s (conn_skip p)) = false).
+      { apply Nat.eqb_neq. destruct He as [[He|He]|He]; lia. }
+      rewrite Hne2 in Hx. cbn [app] in Hx. apply Hx; [|cbn [conn_skip pt]; destruct He as [[He|He]|He]; left; lia|exact Hws].
+      apply (agree_sub N N' p (S (ntrans s + ntrans_b (s' :: r))) (napis s + napis_l (s' :: r)));
+        [split; [exact Ht|split; [exact Ha|exact Hd]]|cbn; lia..].
+    + apply IH; try assumption.
+      * apply (agree_sub N N' p (S (ntrans s + ntrans_b (s' :: r))) (napis s + napis_l (s' :: r)));
+          [split; [exact Ht|split; [exact Ha|exact Hd]]|cbn; lia..].
+      * cbn [adv conn_skip pt]. destruct He as [[He|He]|He]; [left; left; lia|left; right; lia|right; exact He].
+Qed.
+
+Lemma wired_agree_list : forall N N' e extra l,
+    Forall (fun s => frag s = true -> forall p ctx xcbs,
+                agree N N' p (ntrans s) (napis s) e extra ->
+                ((e < pt p \/ pt p + ntrans s <= e) \/ e = exit_t s p) ->
+                wired N s p ctx xcbs ->
+                wired N' s p ctx (xcbs ++ if Nat.eqb e (exit_t s p) then extra else [])) l ->
+    frag_brs l = true -> forall q ctx,
+      agree N N' q (ntrans_l l) (napis_l l) e extra ->
+      (e < pt q \/ pt q + ntrans_l l <= e) ->
+      wired_list (wired N) ctx l q -> wired_list (wired N') ctx l q.
+Proof.
+  intros N N' e extra. induction l as [|b r IH]; intros HF Hf q ctx Hag He Hw; [exact I|].
+  inversion HF as [|? ? Hb Hr]; subst. apply frag_brs_cons in Hf. destruct Hf as (_ & Hfb & Hfr).
+  cbn [wired_list] in *. destruct Hw as [Hwb Hwr]. rewrite ntrans_l_cons in *. rewrite napis_l_cons in Hag.
+  split.
+  - pose proof (exit_range b Hfb q) as Hex.
+    assert (Hne : Nat.eqb e (exit_t b q) = false) by (apply Nat.eqb_neq; lia).
+    specialize (Hb Hfb q ctx []). rewrite Hne in Hb. cbn [app] in Hb. apply Hb; [|left; lia|exact Hwb].
+    eapply agree_sub; [exact Hag|lia..].
+  - apply IH; try assumption.
+    + eapply agree_sub; [exact Hag|cbn [adv pt pa]; lia..].
+    + cbn [adv pt]. lia.
+Qed.
+
+Lemma wired_agree : forall N N' e extra s, frag s = true -> forall p ctx xcbs,
+    agree N N' p (ntrans s) (napis s) e extra ->
+    ((e < pt p \/ pt p + ntrans s <= e) \/ e = exit_t s p) ->
+    wired N s p ctx xcbs ->
+    wired N' s p ctx (xcbs ++ if Nat.eqb e (exit_t s p) then extra else []).
+Proof.
+  intros N N' e extra.
+  induction s as [n a i|t a i body IH|bs IH|e0 p f IHp IHf|e0 b IH|v l b IH|v l c IH] using xstmt_ind';
+    intros Hf p0 ctx xcbs Hag He Hw; try discriminate Hf.
+  - cbn [wired exit_t ntrans napis] in *. destruct Hw as (H1 & H2 & H3 & (a0 & Ha0 & Hl) & H5).
+    destruct Hag as (Ht & Ha & d & Hd & Hk).
+    destruct (Ht (pt p0) ltac:(lia)) as (E1 & E2 & E3).
+    split; [congruence|]. split; [congruence|]. split; [rewrite E3, H3; reflexivity|]. split.
+    + exists a0. split; [rewrite Ha by lia; exact Ha0|exact Hl].
+    + rewrite Hd, dict_get_skip; [exact H5|].
+      eapply Forall_impl; [|exact Hk]. intros kv (k & E & Hle). exists k. split; [exact E|lia].
+  - apply frag_call in Hf. destruct Hf as [_ Hf].
+    cbn [wired exit_t] in *. destruct Hw as ((a0 & Ha0 & Hl) & Hw). rewrite ntrans_call, napis_call in *.
+    split.
+    + exists a0. split; [|exact Hl]. destruct Hag as (_ & Ha & _). rewrite Ha by lia. exact Ha0.
+    + change (CbTF (pa p0) :: xcbs ++ (if Nat.eqb e (last_of exit_t 0 body (body_pos p0)) then extra else []))
+        with ((CbTF (pa p0) :: xcbs) ++ (if Nat.eqb e (exit_b body (body_pos p0)) then extra else [])).
+      apply (wired_agree_block N N' e extra body IH Hf); [|exact He|exact Hw].
+      eapply agree_sub; [exact Hag|cbn [body_pos pt pa]; lia..].
+  - apply frag_par in Hf. destruct Hf as [_ Hf].
+    cbn [wired exit_t] in *. destruct Hw as (H1 & H2 & H3 & Hw). rewrite ntrans_par, napis_par in *.
+    destruct Hag as (Ht & Ha & Hd).
+    destruct (Ht (pt p0) ltac:(lia)) as (E1 & E2 & E3).
+    split; [congruence|]. split; [congruence|]. split; [rewrite E3, H3; reflexivity|].
+    apply (wired_agree_list N N' e extra bs IH Hf); [| |exact Hw].
+    + eapply agree_sub; [split; [exact Ht|split; [exact Ha|exact Hd]]|cbn [par_pos pt pa]; lia..].
+    + cbn [par_pos pt]. destruct He as [[He|He]|He]; lia.
 Qed.
